@@ -189,8 +189,8 @@ YAMUX = "yamux model: a session is a pair of FIFO queues of streams; Open enqueu
 prop("C18", ["prims.go", "m_print.go", "c18.go"],
      [run("lifecycle", "harnessC18", ["mux", "no-mux"],
           quick={"bound": "plugin side, gRPC, multiplexing on/off, no brokered listeners: a whole life cycle Serve -> host connects -> controller Shutdown -> Serve returns, against the ghost file system"}),
-      run("world", "harnessC18world", ["dispensed", "host-serves", "plugin-serves", "host-listener-left-open", "clean"], files=WORLD,
-          quick={"params": {"trace": 0}, "bound": "host x plugin composed, net/rpc, gRPC and gRPC+mux, both launch methods; history: dispense and call; optionally a brokered server on the host dialled and called by the plugin; optionally a brokered server on the plugin dialled and called by the host; optionally a host-side brokered listener still open at Kill (custom runner); then Kill and six seconds"})],
+      run("world", "harnessC18world", ["dispensed", "host-serves", "plugin-serves", "two-plugin-servers", "host-listener-left-open", "clean"], files=WORLD,
+          quick={"params": {"trace": 0}, "bound": "host x plugin composed, net/rpc, gRPC and gRPC+mux, both launch methods; history: dispense and call; optionally a brokered server on the host dialled and called by the plugin; optionally one or two brokered servers on the plugin, each dialled and called by the host; optionally a host-side brokered listener still open at Kill (custom runner); then Kill and six seconds"})],
      [GHOSTFS, GRPCSEAM, YAMUX, EXIT] + WORLD_ASSUME,
      WORLD_STUBS,
      "histories with more than one brokered connection per direction; stdio traffic; goroutines inside gRPC and yamux (delegated)",
@@ -201,8 +201,8 @@ prop("C18", ["prims.go", "m_print.go", "c18.go"],
 prop("C04", ["prims.go", "c04.go"],
      [run("kill-seam", "harnessC04", ["connected", "forced", "graceful", "kill-returned"],
           quick={"bound": "gRPC over the generated-client seam, RunnerFunc launch, connected client, one Kill; plugin behaviour in {cooperative after symbolic delay d, answers but never exits, frozen}"}),
-      run("kill-world", "harnessC04world", ["connected", "graceful", "forced", "already-dead", "repeated", "overlapping-kill"], files=WORLD,
-          quick={"bound": "host x plugin composed, net/rpc and gRPC, both launch methods; plugin shutdown behaviour in {exits at once, exits after a symbolic clean-up time d <= 10 s, acknowledges but never exits, frozen (SIGSTOP), already crashed}; call pattern: one Kill, a repeated Kill, and a second Kill from another goroutine at a symbolic instant in [first Kill, +6 s]"}),
+      run("kill-world", "harnessC04world", ["connected", "graceful", "forced", "already-dead", "repeated", "overlapping-kill", "client-failed-before-kill"], files=WORLD,
+          quick={"bound": "host x plugin composed, net/rpc and gRPC, both launch methods; plugin shutdown behaviour in {exits at once, exits after a symbolic clean-up time d <= 10 s, acknowledges but never exits, frozen (SIGSTOP), already crashed}; call pattern: one Kill, a repeated Kill, and a second Kill from another goroutine at a symbolic instant in [first Kill, +6 s]; also the history Start, plugin freezes or crashes, Client() (fails for net/rpc), Kill"}),
       run("cleanup-clients", "harnessC04cleanup", ["cleaned-up"], files=WORLD,
           quick={"bound": "CleanupClients over two managed clients (protocols free): the second healthy, ignoring the request, or never started"})],
      [PROC, BUFIO, CTX, GRPCSEAM, "a unary gRPC call returns when answered, when its context is done, or with Unavailable when the connection is dead - and blocks otherwise", "yamux keep-alive: a net/rpc call to a peer that stopped answering fails after at most 40 s (default yamux configuration)"] + WORLD_ASSUME,
